@@ -24,6 +24,7 @@ E2EWhys(r) ==
   { "C08:stored log differs from the bytes the process wrote" : t \in { x \in RangeOf(r.tasks) : x.ran /\ ~x.stored_equal } }
   \cup { "C08:stored log contains output of another task" : t \in { x \in RangeOf(r.tasks) : x.foreign } }
   \cup { "C08:log show does not print header + exactly the stored bytes" : t \in { x \in RangeOf(r.tasks) : x.ran /\ x.shown /\ ~x.show_equal } }
+  \cup { "C08:log show with filters prints a log the filters exclude or omits an admitted one" : t \in { x \in RangeOf(r.tasks) : x.ran /\ ~x.filters_ok } }
   \cup (IF r.rc # r.want_rc THEN {"C08:harness: run ended unexpectedly"} ELSE {})
 
 Whys(r) == CASE r.ev = "capture" -> CaptureWhys(r)
